@@ -1158,7 +1158,7 @@ pub fn gen_value(d: &Desc, rng: &mut Rng, budget: usize) -> Value {
             }
             Value::Str(s)
         }
-        Desc::Flex { item, .. } => {
+        Desc::Flex { item, len } => {
             let n = match rng.below(6) {
                 0 => 0,
                 1 => 1,
@@ -1167,7 +1167,17 @@ pub fn gen_value(d: &Desc, rng: &mut Rng, budget: usize) -> Value {
                 _ => rng.below(5) as usize,
             };
             let sub = (budget / n.max(1)).max(4);
-            Value::Seq((0..n).map(|_| gen_value(item, rng, sub)).collect())
+            let mut items: Vec<Value> = (0..n).map(|_| gen_value(item, rng, sub)).collect();
+            // every non-last item must be sealable: its offset has to be representable in the offset type
+            let slot = d.flex_slot();
+            let al = d.align();
+            let last = items.len().saturating_sub(1);
+            for (i, it) in items.iter_mut().enumerate() {
+                if i < last && (slot + ceil_to(extent_of(item, it), al)) as u128 >= len.max() {
+                    *it = smallest_value(item);
+                }
+            }
+            Value::Seq(items)
         }
     }
 }
@@ -1371,5 +1381,32 @@ pub fn flex_layout(d: &Desc, bytes: &[u8], off: usize, avail: usize) -> Option<(
         }
         items.push((pos, pos + slot, o - slot));
         pos += o;
+    }
+}
+
+
+/// The value with the smallest extent (empty containers, smallest enum variant).
+pub fn smallest_value(d: &Desc) -> Value {
+    match d {
+        Desc::Unit => Value::Unit,
+        Desc::Int { .. } | Desc::Float { .. } | Desc::Bool => Value::U(0),
+        Desc::Array(e, n) => Value::Arr((0..*n).map(|_| smallest_value(e)).collect()),
+        Desc::Struct { fields, .. } => Value::Struct(fields.iter().map(smallest_value).collect()),
+        Desc::Enum { variants, sized, .. } => {
+            let mut best = 0;
+            if !*sized {
+                let mut bm = usize::MAX;
+                for (i, v) in variants.iter().enumerate() {
+                    let m = c_struct(v).1;
+                    if m < bm {
+                        bm = m;
+                        best = i;
+                    }
+                }
+            }
+            Value::Var(best, variants[best].iter().map(smallest_value).collect())
+        }
+        Desc::Vec { .. } | Desc::Flex { .. } => Value::Seq(vec![]),
+        Desc::Str { .. } => Value::Str(String::new()),
     }
 }
